@@ -28,12 +28,12 @@ CORPUS = 'pipeline'
 
 def from_corpus(case):
     return dict(case, redraw=[0.0, 1.0, 1000.0])
-WEIGHTS = {'layered': 8, 'exact_counts': 3, 'split_candidate': 2, 'merge_chain': 2, 'ref_window': 2}
+WEIGHTS = {'layered': 8, 'bundle_stress': 4, 'exact_counts': 3, 'split_candidate': 2, 'merge_chain': 2, 'ref_window': 2}
 
 
 @st.composite
 def strategy_(draw):
-    case = draw(S.pipeline_case(WEIGHTS, vary=('msa', 'okta', 'sep', 'base'), p_default_prms=0.0, exclude=False, index_kinds=True,
+    case = draw(S.pipeline_case(WEIGHTS, vary=('msa', 'okta', 'sep', 'base'), p_default_prms=0.0, index_kinds=True,
                                 anomalies=True, anomaly_negative=False,
                                 msa_kinds=['athit'] * 4 + ['near'] * 3 + ['low', 'high', 'zero', 'none']))
     case['redraw'] = draw(st.lists(st.sampled_from([0.0, 0.5, 1.0, 7.0, 100.0, 1000.0, 20000.0, 50000.0]),
